@@ -156,6 +156,7 @@ Definition inst_wf (I : inst) : bool :=
   forallb (fun al => nodupb mut_eqb (a_muts al)) (i_alleles I) &&
   forallb (fun al => forallb (fun m => match alookup mut_eqb m (i_muts I) with Some true => true | _ => false end) (a_muts al))
           (candidates I) &&
-  forallb (fun kv : str * Z => 0 <? snd kv) (i_struct I).
+  forallb (fun kv : str * Z => 0 <? snd kv) (i_struct I) &&
+  forallb (fun mf : mut * bool => negb (is_ref (snd (fst mf)))) (i_muts I).
 
 Definition o_allele (al : allele) : out := OL [o_str (a_name al); o_str (a_cfg al); o_list o_mut (a_muts al)].
